@@ -254,6 +254,12 @@ def deserializeFlat (P : Prims) (E : Env) (K : KeyEnv) (reg : JwsRegistry) (v : 
   ensure (← verifySignature P E K reg m v.sig (strBytes v.payload) key) .badSignature
   pure { payload, members := [m] }
 
+/-- `if member.protected:` — a non-empty protected header. -/
+def protTruthy (p : Option Dict) : Bool := match p with | some (_ :: _) => true | _ => false
+
+/-- `if member.header:` — an empty unprotected header is not emitted. -/
+def nonEmptyOrNone (h : Option Dict) : Option Dict := match h with | some (x :: xs) => some (x :: xs) | _ => none
+
 /-- `__sign_member`: the signature entry (with the header the kid was written into). -/
 def signMember (P : Prims) (E : Env) (K : KeyEnv) (reg : JwsRegistry) (payloadSeg : Bytes) (m : Member)
     (key : KeyArg) : Except Err JsonSig := do
@@ -266,12 +272,11 @@ def signMember (P : Prims) (E : Env) (K : KeyEnv) (reg : JwsRegistry) (payloadSe
     | none => m.header
   k.checkUse "sig"
   alg.checkKeyType k
-  let protectedTruthy := match m.prot with | some (_ :: _) => true | _ => false
-  let pseg ← if protectedTruthy then jsonB64Encode P (.obj (m.prot.getD [])) else pure []
+  let pseg ← if protTruthy m.prot then jsonB64Encode P (.obj (m.prot.getD [])) else pure []
   let sig ← jwsSign P E alg (pseg ++ [46] ++ payloadSeg) k
   pure { signature := asciiStr (b64e sig),
-         prot := if protectedTruthy then some (asciiStr pseg) else none,
-         header := match header with | some (x :: xs) => some (x :: xs) | _ => none }
+         prot := if protTruthy m.prot then some (asciiStr pseg) else none,
+         header := nonEmptyOrNone header }
 
 def serializeFlat (P : Prims) (E : Env) (K : KeyEnv) (reg : JwsRegistry) (m : Member) (payload : Bytes)
     (key : KeyArg) : Except Err FlatJws := do
